@@ -103,3 +103,7 @@ impl Iterator for U16CodeUnits<'_> {
 }
 
 impl FusedIterator for U16CodeUnits<'_> {}
+
+// verification hook: harness text lives outside the repository (see MANIFEST.hooks)
+#[cfg(any(kani, sudachi_verif))]
+include!(concat!(env!("SUDACHI_VERIF_DIR"), "/dic__read__u16str.rs"));
